@@ -1,10 +1,12 @@
 #!/bin/sh
-# usage: tools/trymutant.sh <patch> <ID> [tier]   -- applies a patch to /repo, runs the check, always reverts.
+# usage: tools/trymutant.sh <patch> <ID> [tier]
+# Runs a check against a scratch worktree of /repo carrying the patch. /repo, the
+# evidence files and the replay directory of the real checks are not touched.
 set -u
 patch="$1"; id="$2"; tier="${3:-quick}"
-cd /repo || exit 2
-if ! git diff --quiet; then echo "/repo has local changes; refusing" >&2; exit 2; fi
-git apply "$patch" || { echo "patch does not apply" >&2; exit 2; }
-trap 'git -C /repo checkout -- . ; git -C /repo clean -fdq' EXIT
-cd /verif && ./check "$id" "$tier"
+wt="/tmp/mutwt-$$"; out="/tmp/mutout-$$"
+git -C /repo worktree add --detach "$wt" HEAD >/dev/null 2>&1 || exit 2
+trap 'git -C /repo worktree remove --force "$wt" >/dev/null 2>&1; rm -rf "$wt" "$out"' EXIT
+git -C "$wt" apply "$patch" || { echo "patch does not apply" >&2; exit 2; }
+cd /verif && VERIF_REPO_DIR="$wt" VERIF_OUT_DIR="$out" ./check "$id" "$tier"
 echo "exit=$?"
